@@ -1345,25 +1345,156 @@ def _fits_i8(e, fb, site_bb):
 
 
 # ---------------------------------------------------------------------------------------------
-# R-VM-REGS (C06): the VM does not do byte arithmetic on the size of a frame's register window
+# R-VM-REGS (C06): byte arithmetic in the VM's calling convention
 
 VM = "koto_runtime::KotoVm::"
 REGCOUNT = "len(self.registers)"
+REG_MAX = 254       # the largest register index: Frame::push_register refuses 255, new_frame_base refuses 255
+
+# u8 sites in koto_runtime that are safe by an invariant which is not a dominating comparison in the same function.
+# One line of reason each; confirmed by reading.  A site that is not listed and not decided by the interval analysis is
+# a violation.
+REVIEWED_VM = {
+    ("koto_runtime::KFunction::expected_arg_count", "Sub:self.arg_count,1"): (
+        "on the `is_variadic()` edge only: a variadic function declares at least the variadic arg",
+        ("call-true", "is_variadic")),
+    ("koto_runtime::KotoVm::call_and_run_function", "cast:len(args)"): (
+        "the arg registers are pushed first and the final new_frame_base() check (before the count is used) fails when "
+        "more than 255 registers were pushed", ("later-call", "new_frame_base")),
+    ("koto_runtime::KotoVm::execute_instruction",
+     "Add:instruction.<SequencePushN>.start,instruction.<SequencePushN>.count"): (
+        "compile_make_sequence emits batches of at most available_registers_count() = 255 - start elements "
+        "(R-NARROW: chunks / register-backed len(elements_batch))", None),
+    ("koto_runtime::KotoVm::run_make_function",
+     "Add:function_instruction.<Function>.optional_arg_count,function_instruction.<Function>.capture_count"): (
+        "compile_function refuses optional_args.len() + captures.len() > 255 (looked up on every run)",
+        ("compile-sum",)),
+    ("koto_runtime::KotoVm::call_generator", "Add:call_info.frame_base+1,expected_arg_count::t2"): (
+        "on the `arg_count > expected_arg_count` edge only, and frame_base + 1 + arg_count <= 255 because the args "
+        "occupy registers of the caller's window", ("rel", "call_info.arg_count", "expected_arg_count::t2")),
+    ("koto_runtime::KotoVm::unpack_packed_arguments", "cast:len(unpacked_values)"): (
+        "the loop returns an error when len reaches max_unpacked_args = 255 - arg_count - 1",
+        ("has-guard", "len(unpacked_values)", "info.arg_count")),
+    ("koto_runtime::KotoVm::unpack_packed_arguments", "Add:info.arg_count,len(unpacked_values)"): (
+        "len <= 255 - arg_count - 1 (max_unpacked_args test inside the loop)",
+        ("has-guard", "len(unpacked_values)", "info.arg_count")),
+    ("koto_runtime::KotoVm::unpack_packed_arguments", "Sub:255-info.arg_count,1"): (
+        "frame_base + 1 + arg_count <= 255 (the args occupy registers), so arg_count <= 254", None),
+    ("koto_runtime::KotoVm::unpack_packed_arguments", "Sub:info.arg_count,1"): (
+        "inside the loop over the packed args, each of which is counted in arg_count", ("in-loop",)),
+    ("koto_runtime::vm::apply_optional_arguments", "Sub:f.arg_count,f.optional_arg_count"): (
+        "optional args are a subset of the function's args (compile_function collects them from `args`)", None),
+}
+
+
+def _review_holds(cx, fb, site_bb, cond, check, comp_sum_ok):
+    """the structural part of a reviewed reason still holds"""
+    if check is None:
+        return True
+    fn, cfg = fb.fn, fb.cfg
+    if check[0] == "compile-sum":
+        return comp_sum_ok
+    if check[0] == "in-loop":
+        return site_bb in fb.loop_blocks
+    if check[0] == "call-true":
+        for c in fn.calls():
+            if (c.pretty or c.short or "").rsplit("::", 1)[-1] == check[1] and not c.dest[1] and \
+                    (c.bb == site_bb or cfg.dominates(c.bb, site_bb)) and \
+                    edge_side(cx, fn, cfg, c.bb, c.dest[0], site_bb) == "true":
+                return True
+        return False
+    if check[0] == "later-call":
+        # every path from the site to a non-error use passes the call: approximated as the call post-dominating
+        # the site on normal edges = no path from the site to a return that avoids the call's block
+        calls = {c.bb for c in fn.calls() if (c.pretty or c.short or "").rsplit("::", 1)[-1] == check[1]
+                 and site_bb in cfg.reach and c.bb in cfg.reachable_after(site_bb)}
+        if not calls:
+            return False
+        rets = set(cfg.exits)
+        return cfg.find_path(site_bb, lambda b: b in rets, avoid=calls) is None
+    if check[0] == "rel":
+        for (gb, dest, opn, le, re_, cty) in fb.gs:
+            if not (gb == site_bb or cfg.dominates(gb, site_bb)):
+                continue
+            l, rr = _short(le), _short(re_)
+            side = edge_side(cx, fn, cfg, gb, dest, site_bb)
+            op = opn.lower()
+            if (l, rr) == (check[1], check[2]) and ((op == "gt" and side == "true") or (op == "le" and side == "false")):
+                return True
+            if (l, rr) == (check[2], check[1]) and ((op == "lt" and side == "true") or (op == "ge" and side == "false")):
+                return True
+        return False
+    if check[0] == "has-guard":
+        for (gb, dest, opn, le, re_, cty) in fb.gs:
+            la, lb = leaves_of(le) | _phi_names(le), leaves_of(re_) | _phi_names(re_)
+            if (check[1] in la and check[2] in lb) or (check[1] in lb and check[2] in la):
+                return True
+        return False
+    return False
+
+
+def _is_register_leaf(n):
+    last = n.rsplit(".", 1)[-1]
+    return last == "frame_base" or n.endswith("frame_base") or "register" in n.split("(")[0]
 
 
 def rule_vm_regs(cx, tier):
-    r = RuleResult("R-VM-REGS", "registers that the VM allocates behind the current frame (for operations run on behalf "
-                                "of native code) are addressed with checked conversions: the frame's register count "
-                                "`registers.len() - register_base` reaches a u8 only through `u8::try_from`, and no "
-                                "overflow-checked u8 addition has it as an operand (a frame may use all 255 registers)")
+    r = RuleResult("R-VM-REGS", "byte arithmetic of the VM's calling convention cannot overflow: (a) the frame's register "
+                                "count `registers.len() - register_base` reaches a u8 only through `u8::try_from`, never "
+                                "through `as u8` or an unchecked addition; (b) every `CallInfo.frame_base` comes from the "
+                                "bytecode or from new_frame_base(), which refuses 255, so `frame_base + 1` is addressable; "
+                                "(c) every other overflow-checked u8 operation / narrowing cast in koto_runtime is bounded "
+                                "by a dominating comparison or listed with its invariant")
     F = cx.F
     n_conv = 0
     n_sites = 0
+    n_prod = 0
+    used = set()
+    # (b) producers of CallInfo.frame_base
+    nfb = F.fn(VM + "new_frame_base")
+    require(nfb is not None, "R-VM-REGS: KotoVm::new_frame_base not found")
+    fbn = FnBounds(cx, nfb)
+    base_guard = any(opn in ("Lt", "Ne", "Ge", "Eq", "Le", "Gt") and
+                     ((_const_bound(re_) in (255, 254)) or (_const_bound(le) in (255, 254))) and cty == "u8"
+                     for (gb, dest, opn, le, re_, cty) in fbn.gs)
+    r.instances += 1
+    r.nontrivial += 1
+    if not base_guard:
+        r.add(Finding("R-VM-REGS", nfb.qual, "frame-base-max", "new_frame_base() no longer refuses 255: the call machinery "
+                      "addresses the first argument as frame_base + 1 in u8 arithmetic", nfb.file, nfb.line))
     for fn in F.fns.values():
-        if fn.crate.uname != "koto_runtime" or fn.derived or not fn.qual.startswith(VM):
+        if fn.crate.uname != "koto_runtime" or fn.derived:
             continue
         sym = None
-        # conversions of the register count
+        for b in fn.blocks:
+            if b.cleanup:
+                continue
+            for st in b.stmts:
+                if st[0] == "a" and st[2][0] == "agg" and st[2][1][0] == "adt" and \
+                        fn.crate.defs[st[2][1][1]].endswith("::CallInfo") and "frame_base" in st[2][1][3]:
+                    sym = sym or Sym(cx, fn)
+                    op = st[2][2][st[2][1][3].index("frame_base")]
+                    e = sym.expr(op)
+                    n_prod += 1
+                    r.instances += 1
+                    r.nontrivial += 1
+                    if e[0] == "phi" and e[1].startswith("new_frame_base::"):
+                        ok = True       # the (inlined) result of new_frame_base()
+                    else:
+                        names = leaves_of(e) | _phi_names(e)
+                        ok = bool(names) and all(n.startswith("instruction.") or n.endswith(".frame_base") for n in names)
+                    r.sample({"fn": fn.qual, "CallInfo.frame_base": _short(e), "accepted_source": ok})
+                    if not ok:
+                        r.add(Finding("R-VM-REGS", fn.qual, "frame-base-source:" + _short(e),
+                                      "CallInfo.frame_base is neither a register operand of the instruction nor the result "
+                                      "of new_frame_base(): nothing keeps frame_base + 1 within a byte", fn.file,
+                                      loc_line(st[3]) if len(st) > 3 else fn.line))
+    # (a) + (c) sites
+    comp_sum_ok = _compile_function_sum_guard(cx)
+    for fn in F.fns.values():
+        if fn.crate.uname != "koto_runtime" or fn.derived:
+            continue
+        sym = None
         for c in fn.calls():
             if (c.pretty or c.short or "").endswith("try_from") and c.args:
                 sym = sym or Sym(cx, fn)
@@ -1372,31 +1503,88 @@ def rule_vm_regs(cx, tier):
                     r.instances += 1
                     r.nontrivial += 1
                     r.sample({"fn": fn.qual, "line": c.line, "checked_conversion_of": _short(sym.expr(c.args[0]))})
-        for kind, bb, ops, dt, stt, loc, cond in sites(fn):
-            sym = sym or Sym(cx, fn)
-            exprs = [sym.expr(o) for o in ops]
-            ls = set()
-            for e in exprs:
-                leaves_of(e, ls)
-            if REGCOUNT not in ls:
+        ss = sites(fn)
+        if not ss:
+            continue
+        fb = FnBounds(cx, fn)
+        for kind, bb, ops, dt, stt, loc, cond in ss:
+            exprs = [fb.sym.expr(o) for o in ops]
+            if all(e[0] in ("K", "B") for e in exprs):
                 continue
             n_sites += 1
             r.instances += 1
             r.nontrivial += 1
             slot = f"{kind}:" + ",".join(_short(e) for e in exprs)
             line = loc_line(loc)
-            if kind == "cast":
-                msg = (f"the frame's register count is narrowed with `as {dt}`: in a frame that uses all its registers the "
-                       f"index wraps and the operation reads and writes the wrong registers")
-            elif kind == "Add":
-                bnd = Bounds({}, {}, [])
-                if bnd.mag(("add", exprs[0], exprs[1])) <= TMAX[dt]:
-                    continue
-                msg = (f"overflow-checked {dt} addition on a register index derived from the frame's register count: "
-                       f"panics ('attempt to add with overflow') when the frame uses all 255 registers")
-            else:
+            ls = set()
+            for e in exprs:
+                leaves_of(e, ls)
+            if REGCOUNT in ls:
+                if kind == "cast":
+                    msg = (f"the frame's register count is narrowed with `as {dt}`: in a frame that uses all its registers "
+                           f"the index wraps and the operation reads and writes the wrong registers")
+                else:
+                    msg = (f"overflow-checked {dt} `{kind}` on a register index derived from the frame's register count: "
+                           f"panics when the frame uses all 255 registers")
+                r.add(Finding("R-VM-REGS", fn.qual, slot, msg, fn.file, line))
                 continue
-            r.add(Finding("R-VM-REGS", fn.qual, slot, msg, fn.file, line))
-    r.analysed = {"checked_conversions_of_register_count": n_conv, "byte_sites_on_register_count": n_sites}
+            bnd = fb.at(bb, cond)
+            bnd.leaf_ub = dict(bnd.leaf_ub)
+            for n in ls:
+                if _is_register_leaf(n):
+                    bnd.leaf_ub[n] = min(bnd.leaf_ub.get(n, INF), REG_MAX)
+            verdict, why = _decide(kind, dt, exprs, bnd, False)
+            if verdict != "ok" and kind == "Sub" and dt != "i8" and _relational_sub(fb, bb, cond, exprs):
+                verdict, why = "ok", "dominating comparison of the two operands"
+            if verdict != "ok" and (fn.qual, slot) in REVIEWED_VM:
+                reason, check = REVIEWED_VM[(fn.qual, slot)]
+                if _review_holds(cx, fb, bb, cond, check, comp_sum_ok):
+                    used.add((fn.qual, slot))
+                    verdict, why = "ok", "reviewed: " + reason[:80]
+                else:
+                    why = f"the condition its review relies on no longer holds ({check}): {reason[:120]}"
+            r.sample({"fn": fn.qual, "line": line, "site": slot, "verdict": verdict, "why": why}, limit=40)
+            if verdict != "ok":
+                r.add(Finding("R-VM-REGS", fn.qual, slot, f"{_describe(kind, dt, stt)} without a bound: {why}", fn.file,
+                              line))
+    r.analysed = {"checked_conversions_of_register_count": n_conv, "byte_sites": n_sites,
+                  "CallInfo_producers": n_prod, "reviewed_sites_used": len(used), "reviewed_table": len(REVIEWED_VM)}
     r.floor("checked conversions (u8::try_from) of the frame's register count", n_conv, 1)
+    r.floor("CallInfo construction sites", n_prod, 5)
+    r.floor("byte arithmetic sites in koto_runtime", n_sites, 10)
     return r
+
+
+def _relational_sub(fb, site_bb, cond, exprs):
+    """a - b with a dominating `a > b` / `b < a` / `a >= b` / `b <= a` on the taken edge"""
+    a, b = strip_phi(exprs[0]), strip_phi(exprs[1])
+    removed = assume_at(fb.cx, fb.fn, fb.cfg, site_bb)
+    cfg = PrunedCfg(fb.cfg, removed) if removed else fb.cfg
+    for (gb, dest, opn, le, re_, cty) in fb.gs:
+        if not (gb == site_bb or cfg.dominates(gb, site_bb)):
+            continue
+        l, rr = strip_phi(le), strip_phi(re_)
+        side = edge_side(fb.cx, fb.fn, cfg, gb, dest, site_bb)
+        if side is None:
+            continue
+        op = opn.lower()
+        if (l, rr) == (a, b):
+            if (op in ("gt", "ge") and side == "true") or (op in ("lt", "le") and side == "false"):
+                return True
+        if (l, rr) == (b, a):
+            if (op in ("lt", "le") and side == "true") or (op in ("gt", "ge") and side == "false"):
+                return True
+    return False
+
+
+def _compile_function_sum_guard(cx):
+    """compile_function bounds optional_args.len() + captures.len() by 255"""
+    fn = cx.F.fn(COMP + "compile_function")
+    if fn is None:
+        return False
+    fb = FnBounds(cx, fn)
+    for c in fn.calls():
+        if c.short == COMP + "compile_frame":
+            b = fb.at(c.bb)
+            return any(s >= {"len(optional_args)", "len(captures)"} and ub <= 255 for s, ub in b.sums)
+    return False
